@@ -89,9 +89,9 @@ fn ref_build(items: &[(u16, u16, Vec<i32>)]) -> rsnap::RawSnap {
     b.finish()
 }
 
-fn check_pair(u: &Universe, ia: usize, ib: usize, snaps: &[RawSnap]) -> Result<String, String> {
+fn check_pair(u: &Universe, ia: usize, ib: usize, snaps: &[RawSnap], snaps_b: &[RawSnap], order: &str) -> Result<String, String> {
     let a = &snaps[ia];
-    let b = &snaps[ib];
+    let b = &snaps_b[ib];
     let want = raw_items(b);
     let eq = |c: &RawSnap, route: &str, w: &Vec<Warning>| -> Result<(), String> {
         if raw_items(c) != want {
@@ -105,25 +105,34 @@ fn check_pair(u: &Universe, ia: usize, ib: usize, snaps: &[RawSnap]) -> Result<S
         }
         Ok(())
     };
+    // every object is reused: the delta object held the opposite delta before, the objects the
+    // wire forms are read into hold that one too, the snapshot the delta is applied into holds `a`
     let mut d = Delta::new();
+    d.create_raw(b, a);
+    let dirty = d.clone();
     d.create_raw(a, b);
-    let mut c = RawSnap::empty();
+    let mut c = a.clone();
     let mut w: Vec<Warning> = Vec::new();
     c.read_with_delta(&mut w, a, &d).map_err(|e| format!("direct apply fails: {:?}", e))?;
     eq(&c, "direct", &w)?;
     // through bytes
     let bytes = write_delta_bytes(&d);
-    let mut d2 = Delta::new();
+    let mut d2 = dirty.clone();
     d2.read(&mut w, obj_size, &mut Unpacker::new(&bytes)).map_err(|e| format!("reading the written delta fails: {:?}", e))?;
     c.read_with_delta(&mut w, a, &d2).map_err(|e| format!("apply after bytes fails: {:?}", e))?;
     eq(&c, "via bytes", &w)?;
     // through ints
     let mut ints = vec![0i32; 4096];
     let n = d.write_to_ints(obj_size, &mut ints).map_err(|_| "delta does not fit 4096 ints".to_string())?.len();
-    let mut d3 = Delta::new();
+    let mut d3 = dirty.clone();
     d3.read_from_ints(&mut w, obj_size, &mut IntUnpacker::new(&ints[..n])).map_err(|e| format!("reading the int delta fails: {:?}", e))?;
     c.read_with_delta(&mut w, a, &d3).map_err(|e| format!("apply after ints fails: {:?}", e))?;
     eq(&c, "via ints", &w)?;
+    if !order.is_empty() {
+        // same snapshots, items handed to the builder in another order: only the
+        // create/apply/wire oracles (the reference fixes the ascending order)
+        return Ok(format!("{}:order-{}", u.name, order));
+    }
     let mut class = format!("{}:deleted{}:updated{}", u.name, (ia != ib && raw_items(a).iter().any(|x| !want.iter().any(|y| y.0 == x.0 && y.1 == x.1))) as u8, want.len().min(3));
     if u.reference {
         let ia_items = u.items(ia);
@@ -134,13 +143,16 @@ fn check_pair(u: &Universe, ia: usize, ib: usize, snaps: &[RawSnap]) -> Result<S
         let mut out = vec![0i32; 16384];
         match rd.create_raw_and_write_to_ints(&ra, &rb, obj_size, &mut out) {
             Ok(rints) => {
-                let mut d4 = Delta::new();
+                let mut d4 = dirty.clone();
                 // the reference reports "nothing changed" as zero integers; on the wire that
                 // is the SnapEmpty message, i.e. the empty delta
                 if !rints.is_empty() {
                     d4.read_from_ints(&mut w, obj_size, &mut IntUnpacker::new(rints)).map_err(|e| format!("reading the reference delta fails: {:?} ({:?})", e, rints))?;
-                } else if raw_items(a) != want {
-                    return Err("reference delta is empty although the snapshots differ".into());
+                } else {
+                    d4 = Delta::new();
+                    if raw_items(a) != want {
+                        return Err("reference delta is empty although the snapshots differ".into());
+                    }
                 }
                 c.read_with_delta(&mut w, a, &d4).map_err(|e| format!("applying the reference delta fails: {:?}", e))?;
                 eq(&c, "reference delta", &w)?;
@@ -179,7 +191,7 @@ fn run_universe(run: &Arc<Run>, u: &Universe) {
         .fold(LocalClasses::new, |mut lc, p| {
             let (ia, ib) = (p / n, p % n);
             lc.eval();
-            match vp_core::catch(|| check_pair(u, ia, ib, &snaps)) {
+            match vp_core::catch(|| check_pair(u, ia, ib, &snaps, &snaps, "")) {
                 Ok(Ok(c)) => lc.class(&c, || json!({"from": u.items(ia), "to": u.items(ib)})),
                 Ok(Err(d)) => {
                     let sig = format!("c09:{}", d.split(':').next().unwrap_or(""));
@@ -193,6 +205,41 @@ fn run_universe(run: &Arc<Run>, u: &Universe) {
         })
         .reduce(LocalClasses::new, |a, b| a.merge(b));
     run.merge_classes(lc);
+    // the same pairs with the items handed to the builder in other orders (descending keys;
+    // rotated by one): the stored layout differs, the snapshot as a value does not
+    let reorder = |i: usize, how: usize| -> Vec<(u16, u16, Vec<i32>)> {
+        let mut it = u.items(i);
+        if how == 0 {
+            it.reverse();
+        } else if !it.is_empty() {
+            it.rotate_left(1);
+        }
+        it
+    };
+    let desc: Vec<RawSnap> = (0..n).map(|i| build_raw(&reorder(i, 0))).collect();
+    let rot: Vec<RawSnap> = (0..n).map(|i| build_raw(&reorder(i, 1))).collect();
+    let combos: [(&[RawSnap], &[RawSnap], &str); 4] = [(&desc, &snaps, "desc-asc"), (&snaps, &desc, "asc-desc"), (&desc, &rot, "desc-rot"), (&rot, &desc, "rot-desc")];
+    for (sa, sb, order) in combos {
+        let lc = (0..n * n)
+            .into_par_iter()
+            .fold(LocalClasses::new, |mut lc, p| {
+                let (ia, ib) = (p / n, p % n);
+                lc.eval();
+                match vp_core::catch(|| check_pair(u, ia, ib, sa, sb, order)) {
+                    Ok(Ok(c)) => lc.class(&c, || json!({"from": u.items(ia), "to": u.items(ib)})),
+                    Ok(Err(d)) => {
+                        let sig = format!("c09:{}", d.split(':').next().unwrap_or(""));
+                        run.violation(&sig, &d, json!({"universe": u.name, "insertion_order": order, "from": u.items(ia), "to": u.items(ib)}));
+                    }
+                    Err(pn) => {
+                        run.violation(&format!("c09:{}", vp_core::panic_sig(&pn)), &pn, json!({"universe": u.name, "insertion_order": order, "from": u.items(ia), "to": u.items(ib)}));
+                    }
+                }
+                lc
+            })
+            .reduce(LocalClasses::new, |a, b| a.merge(b));
+        run.merge_classes(lc);
+    }
 }
 
 /// Linear families at the limits: many items, large items.
@@ -250,10 +297,10 @@ fn main() {
         ]
     } else {
         vec![
-            universe_fixed("fixed-ref4", &[(1, 0), (1, 1), (2, 0), (0x3fff, 5)], 3, true),
-            universe_fixed("fixed-signed4", &[(1, 0), (0x7fff, 0), (0x8000, 0), (0xffff, 0xffff)], 3, false),
-            universe("var-ref3", &[(1, 0), (2, 0), (0x3fff, 5)], 3, true),
-            universe("var-signed3", &[(0x7fff, 0), (0x8000, 0), (0xffff, 0xffff)], 3, false),
+            universe_fixed("fixed-ref5", &[(1, 0), (1, 1), (2, 0), (2, 0xffff), (0x3fff, 5)], 3, true),
+            universe_fixed("fixed-signed5", &[(1, 0), (2, 0), (0x7fff, 0), (0x8000, 0), (0xffff, 0xffff)], 3, false),
+            universe("var-ref4", &[(1, 0), (1, 1), (2, 0), (0x3fff, 5)], 3, true),
+            universe("var-signed4", &[(1, 0), (0x7fff, 0), (0x8000, 0), (0xffff, 0xffff)], 3, false),
         ]
     };
     for u in &us {
@@ -261,9 +308,9 @@ fn main() {
     }
     limits(&run);
     run.assume("comparison with the DDNet reference is restricted to the reference's own domain (type ids <= 0x3fff, static sizes only for types < 64); outside it the reference aborts the process");
-    run.assume("items are handed to both builders in ascending key order");
+    run.assume("the comparison with the reference hands the items to both builders in ascending key order; the create/apply/wire oracles are additionally run with the items inserted in descending and rotated order");
     run.finish(
-        "all ordered pairs of all snapshots over a universe of 4 (quick) / 5 (thorough) keys, each key absent or carrying one of 3/4 data vectors (lengths 0..3, values from {0,1,-1,MIN,MAX,0x12345678}; type 1 has a pre-agreed size): delta create -> apply, via bytes, via ints, DDNet reference delta applied here, serialization compared with the reference builder; plus limit families (1024 items, ~64 KiB)",
+        "all ordered pairs of all snapshots over universes of 4 and 5 keys, each key absent or carrying one of 3 (quick) / 4 (thorough) data vectors (lengths 0..3, values from {0,1,-1,MIN,MAX,0x12345678}; type 1 has a pre-agreed size): delta create -> apply, via bytes, via ints (every Delta / snapshot object involved is a reused one that held other content before), DDNet reference delta applied here, serialization compared with the reference builder; the same pairs with the items inserted in descending / rotated order (create -> apply, via bytes, via ints); plus limit families (1024 items, ~64 KiB)",
         true,
     );
 }
